@@ -34,6 +34,7 @@ RULE = ('pool of 23 files: uamiv, lateral boundary, bpch, ICARTT, netCDF, '
 RULE += (" Events also include re-registration, opens with reader keywords (endian='little' among them) and opens by relative name from a private working directory whose content changes between events (32 event tokens in all).")
 RULE += (' Two more bpch pool files in directories of their own (other tracers and times; a tracer without a line in its tracerinfo.dat), an event naming the block-walking reader for one of them, and three reader-naming probes after every history (25 files, 35 event tokens).')
 RULE += (' Two netCDF-4 (HDF5) files and a truncated copy of one that the netCDF library refuses; the gridded, boundary and one-3D pool files share one time axis and differ in their number of variables (28 files, 38 event tokens).')
+RULE += (' A one-3D file whose name has two dots (m.d01.humidity); for the one-3D files under a sibling reader\'s extension the format-less open is compared with the open that names that reader (29 files, 39 event tokens).')
 ASSUMPTIONS = [
     'every (history, probe) pair runs in a fork()ed child of a helper '
     'process that has imported the library and never opened a file, so the '
@@ -64,7 +65,11 @@ POOL = [
     ('e.nc', 'nc', 'netcdf'), ('e_noext', 'nc', 'netcdf'),
     ('g.arlpackedbit', 'arl', 'arlpackedbit'), ('g_noext', 'arl',
                                                 'arlpackedbit'),
-    ('h.humidity', 'one3d', None), ('h.vertical_diffusivity', 'one3d', None),
+    ('h.humidity', 'one3d', 'humidity'),
+    ('h.vertical_diffusivity', 'one3d', 'vertical_diffusivity'),
+    # (a name with more than one dot: the extension is what follows the
+    # LAST one)
+    ('m.d01.humidity', 'one3d', 'humidity'),
     ('h.one3d', 'one3d', None), ('h_noext', 'one3d', None),
     # files no reader accepts, under a reader's extension: detection fails
     # (raises); what a failed open leaves behind is part of the history
